@@ -678,7 +678,22 @@ class SimulatedBroker(Broker):
                         dt, self.portfolios[portfolio].current_dt, portfolio
                     )
                 )
-            for asset in self.portfolios[portfolio].pos_handler.positions:
+            positions = self.portfolios[portfolio].pos_handler.positions
+            for asset in positions:
+                # A position that was marked directly at a later time
+                # would refuse this update after other positions had
+                # already been re-marked
+                if (
+                    positions[asset].current_dt is not None and
+                    dt < positions[asset].current_dt
+                ):
+                    raise ValueError(
+                        'Update time %s is earlier than the current time %s '
+                        'of the position in asset %s. Cannot update the '
+                        'positions of portfolio "%s".' % (
+                            dt, positions[asset].current_dt, asset, portfolio
+                        )
+                    )
                 mid_price = self.data_handler.get_asset_latest_mid_price(
                     dt, asset
                 )
